@@ -114,92 +114,94 @@ def run(chk):
             chk.ob('index', '%s<usize>: slot number = the index for index < 512, panic otherwise' % tr, ok, 'paths %r rng %r' % (o, [x.st.rng.get('n') for x in o]), fn_site(I, fn_))
     chk.guard('index', 'index impls', index_rules)
 
-    def iter_rules():
-        # iter / iter_mut: (0..512).map(closure) where closure(i) is slot i of self
-        for meth, mut in (('iter', False), ('iter_mut', True)):
-            fn_ = TBL + '::' + meth
-            st = State()
-            st.mem[('arg', 'self')] = Struct(TBL, [Array('entries', mk=lambda nm: Struct(PTE, [BV.sym(64, nm)]), length=512)])
-            o = r1(fn_, [Ref(('arg', 'self'))], st)
-            ok = len(o) == 1 and o[0].kind == 'ret'
-            calls = [e for e in o[0].st.events if e[0] == 'call'] if ok else []
-            ok = ok and len(calls) == 1 and calls[0][1].endswith('Iterator::map')
-            rng = calls[0][2][0] if ok else None
-            clo = calls[0][2][1] if ok else None
-            okr = ok and isinstance(rng, Struct) and rng.name.endswith('ops::Range') and eval_value(rng.fields[0], {}) == 0 and eval_value(rng.fields[1], {}) == SP.ENTRIES
-            chk.ob('iter', '%s() maps the constant range 0..512' % meth, okr, 'call %r' % (calls[:1],), fn_site(I, fn_))
-            okc = False
-            if ok and isinstance(clo, Closure):
-                s2 = o[0].st.clone()
-                loc = ('obj', 'clo-env')
-                s2.mem[loc] = clo
-                cf = I.fn[clo.name]
-                envarg = Ref(loc) if cf['locals'][1].get('k') == 'ref' else clo
-                s2.rng['k'] = [(0, 511)]
-                co = I.run_fn(cf, [envarg, BV(64, sl('k', 0, 9) + [0] * 55)], s2, {})
-                rets = [x for x in co if x.kind == 'ret']
-                if len(rets) == 1 and isinstance(rets[0].val, Ref):
-                    r = rets[0].val
-                    okc = r.loc == ('arg', 'self') and len(r.path) == 2 and r.path[0] == 0 and I.sym_of(r.path[1][1]) == 'k' and all(x.kind == 'panic' for x in co if x not in rets)
-            chk.ob('iter', '%s(): the closure yields slot i of this table for the i it is given' % meth, okc, 'closure %r' % (clo,), fn_site(I, fn_))
-        # is_empty = iter().all(|e| e.is_unused())
-        fn_ = TBL + '::is_empty'
+    chk.guard('iter', 'iteration', lambda: iter_rules(chk, I, r1))
+    chk.floor('obligations', len(chk.obs), 36)
+
+
+def iter_rules(chk, I, r1):
+    # iter / iter_mut: (0..512).map(closure) where closure(i) is slot i of self
+    for meth, mut in (('iter', False), ('iter_mut', True)):
+        fn_ = TBL + '::' + meth
         st = State()
-        st.mem[('arg', 'self')] = Opaque('table')
-        saved = set(I.opaque_fns)
-        I.opaque_fns |= {TBL + '::iter'}
-        try:
-            o = r1(fn_, [Ref(('arg', 'self'))], st)
-        finally:
-            I.opaque_fns = saved
+        st.mem[('arg', 'self')] = Struct(TBL, [Array('entries', mk=lambda nm: Struct(PTE, [BV.sym(64, nm)]), length=512)])
+        o = r1(fn_, [Ref(('arg', 'self'))], st)
         ok = len(o) == 1 and o[0].kind == 'ret'
         calls = [e for e in o[0].st.events if e[0] == 'call'] if ok else []
-        ok = ok and [c[1].split('::')[-1] for c in calls] == ['iter', 'all'] and isinstance(calls[0][2][0], Ref) and calls[0][2][0].loc == ('arg', 'self')
+        ok = ok and len(calls) == 1 and calls[0][1].endswith('Iterator::map')
+        rng = calls[0][2][0] if ok else None
+        clo = calls[0][2][1] if ok else None
+        okr = ok and isinstance(rng, Struct) and rng.name.endswith('ops::Range') and eval_value(rng.fields[0], {}) == 0 and eval_value(rng.fields[1], {}) == SP.ENTRIES
+        chk.ob('iter', '%s() maps the constant range 0..512' % meth, okr, 'call %r' % (calls[:1],), fn_site(I, fn_))
         okc = False
-        if ok and isinstance(calls[1][2][1], Closure):
-            clo = calls[1][2][1]
-            s2 = State()
-            eref = arg_obj(s2, 'e', Struct(PTE, [BV.sym(64, 'e')]))
+        if ok and isinstance(clo, Closure):
+            s2 = o[0].st.clone()
             loc = ('obj', 'clo-env')
             s2.mem[loc] = clo
             cf = I.fn[clo.name]
             envarg = Ref(loc) if cf['locals'][1].get('k') == 'ref' else clo
-            co = I.run_fn(cf, [envarg, eref], s2, {})
-            okc = len(co) == 1 and co[0].kind == 'ret' and same(co[0].val, BV(1, [eq0_bit(tuple(sl('e', 0, 64)))]))
-        chk.ob('iter', 'is_empty() = iter().all(entry is all-zero) and returns that result', ok and okc and isinstance(o[0].val, BV), 'calls %r' % ([c[1] for c in calls],), fn_site(I, fn_))
-        # zero(): every element yielded by iter_mut() gets set_unused
-        fn_ = TBL + '::zero'
-        st = State()
-        st.mem[('arg', 'self')] = Opaque('table')
-        saved = set(I.opaque_fns)
-        I.opaque_fns |= {TBL + '::iter_mut'}
-        try:
-            o = r1(fn_, [Ref(('arg', 'self'))], st)
-        finally:
-            I.opaque_fns = saved
-        rets = [x for x in o if x.kind == 'ret']
-        loops = [x for x in o if x.kind == 'loop']
-        okz = len(rets) == 1 and len(loops) == 1 and len(o) == 2
-        detail = 'paths %r' % (o,)
+            s2.rng['k'] = [(0, 511)]
+            co = I.run_fn(cf, [envarg, BV(64, sl('k', 0, 9) + [0] * 55)], s2, {})
+            rets = [x for x in co if x.kind == 'ret']
+            if len(rets) == 1 and isinstance(rets[0].val, Ref):
+                r = rets[0].val
+                okc = r.loc == ('arg', 'self') and len(r.path) == 2 and r.path[0] == 0 and I.sym_of(r.path[1][1]) == 'k' and all(x.kind == 'panic' for x in co if x not in rets)
+        chk.ob('iter', '%s(): the closure yields slot i of this table for the i it is given' % meth, okc, 'closure %r' % (clo,), fn_site(I, fn_))
+    # is_empty = iter().all(|e| e.is_unused())
+    fn_ = TBL + '::is_empty'
+    st = State()
+    st.mem[('arg', 'self')] = Opaque('table')
+    saved = set(I.opaque_fns)
+    I.opaque_fns |= {TBL + '::iter'}
+    try:
+        o = r1(fn_, [Ref(('arg', 'self'))], st)
+    finally:
+        I.opaque_fns = saved
+    ok = len(o) == 1 and o[0].kind == 'ret'
+    calls = [e for e in o[0].st.events if e[0] == 'call'] if ok else []
+    ok = ok and [c[1].split('::')[-1] for c in calls] == ['iter', 'all'] and isinstance(calls[0][2][0], Ref) and calls[0][2][0].loc == ('arg', 'self')
+    okc = False
+    if ok and isinstance(calls[1][2][1], Closure):
+        clo = calls[1][2][1]
+        s2 = State()
+        eref = arg_obj(s2, 'e', Struct(PTE, [BV.sym(64, 'e')]))
+        loc = ('obj', 'clo-env')
+        s2.mem[loc] = clo
+        cf = I.fn[clo.name]
+        envarg = Ref(loc) if cf['locals'][1].get('k') == 'ref' else clo
+        co = I.run_fn(cf, [envarg, eref], s2, {})
+        okc = len(co) == 1 and co[0].kind == 'ret' and same(co[0].val, BV(1, [eq0_bit(tuple(sl('e', 0, 64)))]))
+    chk.ob('iter', 'is_empty() = iter().all(entry is all-zero) and returns that result', ok and okc and isinstance(o[0].val, BV), 'calls %r' % ([c[1] for c in calls],), fn_site(I, fn_))
+    # zero(): every element yielded by iter_mut() gets set_unused
+    fn_ = TBL + '::zero'
+    st = State()
+    st.mem[('arg', 'self')] = Opaque('table')
+    saved = set(I.opaque_fns)
+    I.opaque_fns |= {TBL + '::iter_mut'}
+    try:
+        o = r1(fn_, [Ref(('arg', 'self'))], st)
+    finally:
+        I.opaque_fns = saved
+    rets = [x for x in o if x.kind == 'ret']
+    loops = [x for x in o if x.kind == 'loop']
+    okz = len(rets) == 1 and len(loops) == 1 and len(o) == 2
+    detail = 'paths %r' % (o,)
+    if okz:
+        ev = [e for e in loops[0].st.events if e[0] in ('call', 'icall', 'write')]
+        names = [e[1].split('::')[-1] for e in ev if e[0] != 'write']
+        # iter_mut(self) -> into_iter -> next -> Some(entry) -> set_unused(entry)
+        okz = names[:4] == ['iter_mut', 'into_iter', 'next', 'set_unused'] and ev[0][2][0].loc == ('arg', 'self')
         if okz:
-            ev = [e for e in loops[0].st.events if e[0] in ('call', 'icall', 'write')]
-            names = [e[1].split('::')[-1] for e in ev if e[0] != 'write']
-            # iter_mut(self) -> into_iter -> next -> Some(entry) -> set_unused(entry)
-            okz = names[:4] == ['iter_mut', 'into_iter', 'next', 'set_unused'] and ev[0][2][0].loc == ('arg', 'self')
-            if okz:
-                nxt = [e for e in ev if e[0] == 'call' and e[1].endswith('::next')][0]
-                su = [e for e in ev if e[0] == 'icall' and e[1].endswith('set_unused')][0]
-                okz = isinstance(su[2][0], Ref) and su[2][0].loc[0] == 'obj' and ('next#%d' % nxt[5]) in str(su[2][0].loc[1])
-            evr = [e[1].split('::')[-1] for e in rets[0].st.events if e[0] in ('call', 'icall')]
-            okz = okz and evr[:3] == ['iter_mut', 'into_iter', 'next'] and 'set_unused' not in evr
-            detail = 'loop-iteration events %s; exit events %s' % (names, evr)
-        chk.ob('iter', 'zero(): each element yielded by iter_mut() is set unused; the loop ends only when the iterator does', okz, detail, fn_site(I, fn_))
-        # new(): 512 copies of an all-zero entry
-        o = r1(TBL + '::new', [])
-        ok = len(o) == 1 and o[0].kind == 'ret'
-        if ok:
-            arr = o[0].val.fields[0]
-            ok = isinstance(arr, Array) and arr.length == SP.ENTRIES and not arr.elems and arr.default is not None and eval_value(inner(arr.default), {}) == 0
-        chk.ob('iter', 'new(): 512 all-zero entries', ok, 'returns %r' % (o,), fn_site(I, TBL + '::new'))
-    chk.guard('iter', 'iteration', iter_rules)
-    chk.floor('obligations', len(chk.obs), 36)
+            nxt = [e for e in ev if e[0] == 'call' and e[1].endswith('::next')][0]
+            su = [e for e in ev if e[0] == 'icall' and e[1].endswith('set_unused')][0]
+            okz = isinstance(su[2][0], Ref) and su[2][0].loc[0] == 'obj' and ('next#%d' % nxt[5]) in str(su[2][0].loc[1])
+        evr = [e[1].split('::')[-1] for e in rets[0].st.events if e[0] in ('call', 'icall')]
+        okz = okz and evr[:3] == ['iter_mut', 'into_iter', 'next'] and 'set_unused' not in evr
+        detail = 'loop-iteration events %s; exit events %s' % (names, evr)
+    chk.ob('iter', 'zero(): each element yielded by iter_mut() is set unused; the loop ends only when the iterator does', okz, detail, fn_site(I, fn_))
+    # new(): 512 copies of an all-zero entry
+    o = r1(TBL + '::new', [])
+    ok = len(o) == 1 and o[0].kind == 'ret'
+    if ok:
+        arr = o[0].val.fields[0]
+        ok = isinstance(arr, Array) and arr.length == SP.ENTRIES and not arr.elems and arr.default is not None and eval_value(inner(arr.default), {}) == 0
+    chk.ob('iter', 'new(): 512 all-zero entries', ok, 'returns %r' % (o,), fn_site(I, TBL + '::new'))
